@@ -89,7 +89,9 @@ impl<A> It<A> {
 
     #[verifier::external_body]
     pub fn map<B, F: Fn(A) -> B>(self, f: F) -> (r: It<B>)
-        requires forall|x: A| #[trigger] f.requires((x,)),
+        requires
+            forall|i: int| 0 <= i < self.seq().len() ==> f.requires((#[trigger] self.seq()[i],)),       // the closure is applied to the items only
+            self.forever() matches Some(v) ==> f.requires((v,)),
         ensures
             r.seq().len() == self.seq().len(), self.forever().is_none() ==> r.forever().is_none(),
             forall|i: int| 0 <= i < self.seq().len() ==> f.ensures((self.seq()[i],), #[trigger] r.seq()[i]),
